@@ -1,0 +1,103 @@
+//go:build verif
+
+package dfa
+
+// Contracts for the verification machinery in /verif (see /verif/DESIGN.md).
+// This file contains only comments; it is compiled to nothing.
+
+//@ prop C13
+
+// The element lattice L is abstract: its three operations are uninterpreted functions of the
+// receiver and the arguments, constrained only by the semilattice laws below (which is what
+// the documentation of Semilattice demands of every implementation). Equals is treated as
+// equality on the quotient, i.e. Merge respects it.
+//@ extern (honnef.co/go/tools/analysis/dfa.Semilattice).Merge(a Elem, b Elem) Elem
+//@   pure
+//@ extern (honnef.co/go/tools/analysis/dfa.Semilattice).Equals(a Elem, b Elem) bool
+//@   pure
+//@ extern (honnef.co/go/tools/analysis/dfa.Semilattice).Ident() Elem
+//@   pure
+
+//@ group semilattice
+//@ axiom [assoc] forall l L, x Elem, y Elem, z Elem :: {l.Merge(x, l.Merge(y, z))} {l.Merge(l.Merge(x, y), z)} l.Merge(x, l.Merge(y, z)) == l.Merge(l.Merge(x, y), z)
+//@ axiom [comm]  forall l L, x Elem, y Elem :: {l.Merge(x, y)} l.Merge(x, y) == l.Merge(y, x)
+//@ axiom [idem]  forall l L, x Elem :: {l.Merge(x, x)} l.Merge(x, x) == x
+//@ axiom [ident] forall l L, x Elem :: {l.Merge(x, l.Ident())} l.Merge(x, l.Ident()) == x
+//@ axiom [equals] forall l L, x Elem, y Elem :: {l.Equals(x, y)} l.Equals(x, y) == (x == y)
+//@ group
+
+// ---- DenseMapLattice: a slice read as a total map, missing indices are the identity ----
+//@ ghost dget(l L, a []Elem, k int) Elem = 0 <= k && k < len(a) ? a[k] : l.Ident()
+
+//@ func (DenseMapLattice).Ident
+//@   pure
+//@   ensures  len(result) == 0
+
+// pointwise merge; the result covers the longer argument
+//@ func (DenseMapLattice).Merge
+//@   uses     semilattice
+//@   pure
+//@   ensures  [len]   len(result) == max(len(a), len(b))
+//@   ensures  [point] forall k int :: {dget(s.l, result, k)} dget(s.l, result, k) == s.l.Merge(dget(s.l, a, k), dget(s.l, b, k))
+//@   loop 1   invariant [len]   len(out) == max(len(a), len(b))
+//@   loop 1   invariant [point] forall j int :: {out[j]} 0 <= j && j < k ==> out[j] == s.l.Merge(dget(s.l, a, j), dget(s.l, b, j))
+
+// the four laws, pointwise (i.e. modulo Equals of the dense lattice)
+//@ lemma dense_comm(s DenseMapLattice, a []Elem, b []Elem, k int)
+//@   uses     semilattice
+//@   ensures  dget(s.l, s.Merge(a, b), k) == dget(s.l, s.Merge(b, a), k)
+//@ lemma dense_assoc(s DenseMapLattice, a []Elem, b []Elem, c []Elem, k int)
+//@   uses     semilattice
+//@   ensures  dget(s.l, s.Merge(a, s.Merge(b, c)), k) == dget(s.l, s.Merge(s.Merge(a, b), c), k)
+//@ lemma dense_idem(s DenseMapLattice, a []Elem, k int)
+//@   uses     semilattice
+//@   ensures  dget(s.l, s.Merge(a, a), k) == dget(s.l, a, k)
+//@ lemma dense_ident(s DenseMapLattice, a []Elem, k int)
+//@   uses     semilattice
+//@   ensures  dget(s.l, s.Merge(a, s.Ident()), k) == dget(s.l, a, k)
+
+// ---- MapLattice: a map read as a total map, missing keys are the identity; the identity is
+// never stored (representation invariant from the type's documentation) ----
+//@ ghost mget(l L, a map[Key]Elem, k Key) Elem = k in a ? a[k] : l.Ident()
+//@ ghost noIdent(l L, a map[Key]Elem) bool = forall k Key :: {a[k]} k in a ==> a[k] != l.Ident()
+
+// "In a semilattice, Merge(x, y) = Ident is only possible when x == Ident and y == Ident"
+//@ group identonly
+//@ axiom [identonly] forall l L, x Elem, y Elem :: {l.Merge(x, y)} l.Merge(x, y) == l.Ident() ==> x == l.Ident() && y == l.Ident()
+//@ group
+
+//@ func (MapLattice).Ident
+//@   pure
+//@   ensures  len(result) == 0
+
+//@ func (MapLattice).Merge
+//@   uses     semilattice, identonly
+//@   requires noIdent(m.l, a) && noIdent(m.l, b)
+//@   pure
+//@   ensures  [point] forall k Key :: {mget(m.l, result, k)} mget(m.l, result, k) == m.l.Merge(mget(m.l, a, k), mget(m.l, b, k))
+//@   ensures  [repr]  noIdent(m.l, result)
+//@   loop 1   visited va
+//@   loop 1   invariant [nonnil] out != nil
+//@   loop 1   invariant [dom] forall k Key :: {k in out} (k in out) == (k in va)
+//@   loop 1   invariant [val] forall k Key :: {out[k]} k in va ==> out[k] == m.l.Merge(a[k], mget(m.l, b, k))
+//@   loop 2   visited vb
+//@   loop 2   invariant [nonnil] out != nil
+//@   loop 2   invariant [dom] forall k Key :: {k in out} (k in out) == ((k in a) || (k in vb))
+//@   loop 2   invariant [val] forall k Key :: {out[k]} k in out ==> out[k] == m.l.Merge(mget(m.l, a, k), mget(m.l, b, k))
+
+//@ lemma map_comm(m MapLattice, a map[Key]Elem, b map[Key]Elem, k Key)
+//@   uses     semilattice, identonly
+//@   requires noIdent(m.l, a) && noIdent(m.l, b)
+//@   ensures  mget(m.l, m.Merge(a, b), k) == mget(m.l, m.Merge(b, a), k)
+//@ lemma map_assoc(m MapLattice, a map[Key]Elem, b map[Key]Elem, c map[Key]Elem, k Key)
+//@   uses     semilattice, identonly
+//@   requires noIdent(m.l, a) && noIdent(m.l, b) && noIdent(m.l, c)
+//@   ensures  mget(m.l, m.Merge(a, m.Merge(b, c)), k) == mget(m.l, m.Merge(m.Merge(a, b), c), k)
+//@ lemma map_idem(m MapLattice, a map[Key]Elem, k Key)
+//@   uses     semilattice, identonly
+//@   requires noIdent(m.l, a)
+//@   ensures  mget(m.l, m.Merge(a, a), k) == mget(m.l, a, k)
+//@ lemma map_ident(m MapLattice, a map[Key]Elem, k Key)
+//@   uses     semilattice, identonly
+//@   requires noIdent(m.l, a)
+//@   ensures  mget(m.l, m.Merge(a, m.Ident()), k) == mget(m.l, a, k)
